@@ -5,6 +5,7 @@ package evaluator
 import (
 	"errors"
 	"strconv"
+	"strings"
 
 	"evylang.dev/evy/pkg/parser"
 )
@@ -409,4 +410,67 @@ func ZZC12Equal() {
 	zzAssert(zzGlobalBool(ev, "e") == sameSet, "C12 equal: equality ignores insertion order and compares key sets")
 	zzAssert(zzGlobalBool(ev, "f") == (x == y), "C12 equal: values are compared deeply")
 	zzWitness("end")
+}
+
+// ZZC12Literal: a map (or array) literal is evaluated anew each time control
+// reaches it: whatever is done to one instance — delete any key, re-insert,
+// overwrite, insert, through any alias — the next evaluation of the same
+// literal (in a function called again, in the next loop iteration) yields the
+// map the source text says, in source order.
+func ZZC12Literal() {
+	ops := []string{
+		"del m \"a\"\n", "del m \"b\"\n", "del m \"c\"\n",
+		"del m \"a\"\nm.a = 9\n", "del m \"b\"\nm.b = 9\n", "m.b = 9\n", "m.z = 9\n",
+		"del m \"a\"\ndel m \"b\"\ndel m \"c\"\n", "del m \"b\"\nm.z = 9\ndel m \"a\"\n",
+		"n := m\ndel n \"b\"\n", "for k := range m\n    del m k\nend\n",
+	}
+	op := ops[zzChoice("op", len(ops))]
+	site := zzChoice("site", 3)
+	x := zzFloat64("x")
+	var src string
+	switch site {
+	case 0: // the literal sits in a function that is called twice
+		src = "x := 1\nfunc mk:{}num\n    return {a:x b:2 c:3}\nend\nm := mk\n" + op + "print \"first\" (has m \"q\")\nm2 := mk\nprint m2\nfor k := range m2\n    print k m2[k]\nend\n"
+	case 1: // the literal sits in a loop body
+		src = "x := 1\nfor i := range 2\n    m := {a:x b:2 c:3}\n    print i m\n    for k := range m\n        print k m[k]\n    end\n" + zzIndentLines(op, "    ") + "end\n"
+	case 2: // the literal is an element of an outer literal built in a function
+		src = "x := 1\nfunc mk:[]{}num\n    return [{a:x b:2 c:3}]\nend\nouter := mk\nm := outer[0]\n" + op + "print \"first\" (has m \"q\")\nm2 := mk\nprint m2[0]\nfor k := range m2[0]\n    print k m2[0][k]\nend\n"
+	}
+	p := &zzPlat{}
+	ev := NewEvaluator(p)
+	prog := zzMustParse(ev, src, "C12 literal")
+	if prog == nil {
+		return
+	}
+	zzSetNum(prog, 0, x)
+	err := ev.Eval(prog)
+	zzAssert(err == nil, "C12 literal: scenario runs")
+	if err != nil {
+		return
+	}
+	X := zzN(x)
+	lit := "{a:" + X + " b:2 c:3}"
+	iter := "|print:a " + X + "\n|print:b 2\n|print:c 3\n"
+	out := p.out()
+	var ok bool
+	switch site {
+	case 0, 2:
+		ok = out == "print:first false\n|print:"+lit+"\n"+iter
+	case 1:
+		ok = out == "print:0 "+lit+"\n"+iter+"|print:1 "+lit+"\n"+iter
+	}
+	if !ok {
+		zzLog("C12 literal: got " + out + "\n" + src)
+	}
+	zzAssert(ok, "C12 literal: every evaluation of a map literal yields a fresh map with the keys of the source text in source order, whatever happened to earlier instances")
+	zzReach("literal-ok")
+	zzWitness("end")
+}
+
+func zzIndentLines(s, pad string) string {
+	out := ""
+	for _, l := range strings.Split(strings.TrimSuffix(s, "\n"), "\n") {
+		out += pad + l + "\n"
+	}
+	return out
 }
